@@ -471,7 +471,9 @@ def d6(chk, repo):
         return
     g = g[0]
     for key_, var in GEOM_KEYS:
-        def pol(atom, key_=key_):
+        unknown_atoms = set()
+
+        def pol(atom, key_=key_, unknown_atoms=unknown_atoms):
             if "'%s' in surface" % key_ in atom:
                 return " not in " not in atom
             if "'%s_dv'" % key_ in atom:
@@ -480,6 +482,8 @@ def d6(chk, repo):
                 return " not in " in atom
             if "_dv'" in atom:
                 return True
+            if "DVGeo" not in atom:
+                unknown_atoms.add(atom)  # a test of a form this rule does not know: nothing is concluded from its runs
             return False
 
         try:
@@ -506,6 +510,9 @@ def d6(chk, repo):
             pins = plist(mesh, "promotes_inputs")
             if pins is None:
                 chk.undecided("D6", k, g.where, "promotes_inputs of the mesh subsystem not resolved")
+                continue
+            if var not in pins and any(a_ in gr.sigma for a_ in unknown_atoms):
+                chk.undecided("D6", k, g.where, "set-up tests %s, a form this rule does not interpret" % sorted(a_ for a_ in unknown_atoms if a_ in gr.sigma)[:2])
                 continue
             if var not in pins:
                 chk.violation("D6", k, g.where, "the surface has '%s' but the mesh subsystem does not promote its input '%s' (promotes_inputs = %s): the mesh chain is driven by the default value instead of the user's %s" % (key_, var, pins, key_))
